@@ -30,6 +30,7 @@ var apiFiles = []treeFile{
 	{Name: "ok", Src: "@use(\"~main\")@insert(\"title\", who.upper() + items[0].str())@insert(\"content\")@each(x in items)({{ x }}{{ loop.last ? \"\" : \",\" }})@end" +
 		"@component(\"~c\", {n: who})@slot{{ who.upper() }}@end@end@end"},
 	{Name: "ok2", Src: "@use(\"~main\")@insert(\"content\")second page of {{ who }}@component(\"~c\", {n: 2})@end@insert(\"title\", \"Second\")"},
+	{Name: "bare", Src: "@use(\"~main\")a page of the layout that inserts nothing"},
 	{Name: "bad", Src: "PARTIAL-OUTPUT-MARKER {{ who }}\n{{ items[0] / 0 }} after"},
 	{Name: "err", Src: "<custom>error page 50% %v</custom>"},
 	{Name: "components/boom", Src: "PARTIAL-OUTPUT-MARKER in component {{ n / 0 }}"},
@@ -40,6 +41,8 @@ var apiFiles = []treeFile{
 	{Name: "bad-in-loop", Src: "@each(x in items)PARTIAL-OUTPUT-MARKER {{ x }} {{ 6 / (3 - x) }}@end"},
 	{Name: "bad-in-slot", Src: "PARTIAL-OUTPUT-MARKER before @component(\"~c\", {n: 1})@slot in the slot {{ items[0] / 0 }} end@end@end after"},
 	{Name: "bad-in-insert", Src: "@use(\"~main\")@insert(\"title\", items[0] / 0)@insert(\"content\")PARTIAL-OUTPUT-MARKER body@end"},
+	{Name: "bad-in-for-cond", Src: "PARTIAL-OUTPUT-MARKER @for(i = 2; 6 / i > 1; i--)pass {{ i }} @end after"},
+	{Name: "bad-in-elseif", Src: "PARTIAL-OUTPUT-MARKER @if(items[0] > 5)no@elseif(items[0] / 0 > 1)never@else other@end after"},
 	{Name: "bad-in-array", Src: "PARTIAL-OUTPUT-MARKER {{ [who, who, items[0] / 0] }} after"},
 	{Name: "bad-in-args", Src: "PARTIAL-OUTPUT-MARKER {{ [who].append(who, items[0] / 0).join(\"-\") }} after"},
 	// (one key only: the printed form of a loaded program, which the state snapshots compare, lists the keys of an
@@ -564,7 +567,7 @@ func cmdRace(args []string) int {
 	defer f.Close()
 	w := bufio.NewWriter(f)
 	defer w.Flush()
-	allOps := []apiOp{{"String", "ok"}, {"String", "ok2"}, {"String", "ok2"}, {"String", "bad"}, {"String", "missing"}, {"Response", "ok"}, {"Response", "bad"},
+	allOps := []apiOp{{"String", "ok"}, {"String", "ok2"}, {"String", "ok2"}, {"String", "bare"}, {"String", "bad"}, {"String", "missing"}, {"Response", "ok"}, {"Response", "bad"},
 		{"Response", "missing"}, {"EvalString", "ok"}, {"EvalString", "bad"}, {"EvalFile", "ok"}}
 	cfgs := []apiCfg{{"t", ".tw", "", false}, {"t", ".tw", "err", false}, {"t", ".tw", "", true}, {"t", ".tw", "err", true}}
 	deadline := time.Now().Add(time.Duration(*seconds) * time.Second)
